@@ -38,6 +38,7 @@ type Frame struct {
 	Legacy      bool
 	Skipped     int // skippable frames consumed before the frame
 	FLG, BD     byte
+	HeaderSeen  bool // FLG and BD were present
 	Version     int
 	BlockIndep  bool
 	BlockSum    bool
@@ -62,12 +63,16 @@ type Frame struct {
 	SizeMismatch bool
 	// KernelTotal: a legacy stream ended with the kernel-style total size word.
 	KernelTotal bool
+	// FollowedByFrame: a legacy frame ended because another frame's magic
+	// number follows (frame concatenation, which a one-frame reader need not
+	// support).
+	FollowedByFrame bool
 }
 
 // HeaderAnomaly reports header properties that are not integrity fields but
 // that a strict decoder refuses: version != 01, reserved bits, dictionary id.
 func (f *Frame) HeaderAnomaly() bool {
-	return !f.Legacy && (f.Version != 1 || f.Reserved || f.DictID)
+	return f.HeaderSeen && !f.Legacy && (f.Version != 1 || f.Reserved || f.DictID)
 }
 
 var (
@@ -184,6 +189,7 @@ func Parse(b []byte, opt ParseOpt) *Frame {
 		return fail("flg", ErrTruncated)
 	}
 	f.FLG, f.BD = b[pos], b[pos+1]
+	f.HeaderSeen = true
 	add("flg", 1, -1)
 	pos++
 	add("bd", 1, -1)
@@ -384,9 +390,10 @@ func parseLegacy(f *Frame, b []byte, pos int, opt ParseOpt) *Frame {
 		if w == MagicFrame || (w >= MagicSkipLo && w <= MagicSkipHi) {
 			// another frame follows: the legacy frame ends here
 			f.Complete = true
+			f.FollowedByFrame = true
 			return f
 		}
-		if total > 0 && w == uint32(total) {
+		if w == uint32(total) {
 			// Linux-kernel style legacy stream: the total uncompressed size
 			// follows the last block.
 			f.Fields = append(f.Fields, Field{"lktotal", pos, 4, -1})
